@@ -81,11 +81,19 @@ theorem readLocs (st : List Loc) : ((st.map locJson).map readLoc).all Option.isS
     simp only [List.map_cons, List.all_cons, List.filterMap_cons, readLoc_locJson, Option.isSome_some, Bool.true_and]
     exact ⟨ih.1, by rw [ih.2]⟩
 
+/-- the implementation's level mapping is the documented table -/
+theorem sarifSeverity_eq_spec (f : Finding) : sarifSeverity f = Spec.level f := by
+  unfold sarifSeverity Spec.level
+  split
+  · rfl
+  · rcases f.severity with _ | _ | _ | _ | _ | _ | _ | _ | _ | n <;> simp [levelTable, List.lookup]
+
 theorem readResult_resultJson (f : Finding) : readResult (resultJson f) = some (expectedResult f) := by
   have hl := readLocs f.stack
+  have hsev := sarifSeverity_eq_spec f
   by_cases hh : f.hash ≠ 0
-  · simp [readResult, resultJson, Json.get, List.lookup, Json.strVal, hh, S, hl.2, expectedResult, readLoc_locJson]
-  · simp [readResult, resultJson, Json.get, List.lookup, Json.strVal, hh, S, hl.2, expectedResult, readLoc_locJson]
+  · simp [readResult, resultJson, Json.get, List.lookup, Json.strVal, hh, S, hl.2, expectedResult, readLoc_locJson, hsev]
+  · simp [readResult, resultJson, Json.get, List.lookup, Json.strVal, hh, S, hl.2, expectedResult, readLoc_locJson, hsev]
 
 theorem ruleJson_id (f : Finding) : ((ruleJson f).get "id").bind Json.strVal = some f.id := by
   simp [ruleJson, Json.get, List.lookup, Json.strVal]
@@ -131,5 +139,389 @@ theorem firstOfId_spec : ∀ (l : List Finding) (seen : List Str),
             · right; simp [h]
             · left; exact h
           · right; simp only [List.map_cons, List.mem_cons]; right; exact h
+
+/-! ## whole documents: `jsonParse (serialize j) = some j` -/
+
+/-! ### numbers -/
+
+theorem digitChar_facts : ∀ m, m < 10 → isDigit (Char.ofNat (48 + m)) = true ∧ (Char.ofNat (48 + m)).toNat - 48 = m ∧
+    Char.ofNat (48 + m) ≠ '-' := by decide
+
+theorem natDecAux_acc : ∀ (f n : Nat) (acc : Str), natDecAux f n acc = natDecAux f n [] ++ acc := by
+  intro f
+  induction f with
+  | zero => intro n acc; simp [natDecAux]
+  | succ f ih =>
+    intro n acc
+    simp only [natDecAux]
+    split
+    · simp
+    · rw [ih (n / 10) (digitChar n :: acc), ih (n / 10) [digitChar n]]; simp
+
+theorem natOfDigits_snoc (ds : Str) (d : Char) : natOfDigits (ds ++ [d]) = natOfDigits ds * 10 + (d.toNat - 48) := by
+  simp [natOfDigits, List.foldl_append]
+
+/-- the digits `natDec` writes: non-empty, all digits, and they spell the number -/
+theorem natDecAux_spec : ∀ (f n : Nat), n < f →
+    natDecAux f n [] ≠ [] ∧ (∀ c ∈ natDecAux f n [], isDigit c = true) ∧ natOfDigits (natDecAux f n []) = n := by
+  intro f
+  induction f with
+  | zero => intro n h; omega
+  | succ f ih =>
+    intro n h
+    have hd := digitChar_facts (n % 10) (Nat.mod_lt _ (by decide))
+    simp only [natDecAux]
+    split
+    · rename_i h0
+      refine ⟨by simp, ?_, ?_⟩
+      · intro c hc; simp only [List.mem_singleton] at hc; subst hc; exact hd.1
+      · simp only [natOfDigits, List.foldl, digitChar]; rw [hd.2.1]; omega
+    · rename_i h0
+      have hlt : n / 10 < f := by omega
+      obtain ⟨h1, h2, h3⟩ := ih (n / 10) hlt
+      rw [natDecAux_acc]
+      refine ⟨by simp, ?_, ?_⟩
+      · intro c hc
+        simp only [List.mem_append, List.mem_singleton] at hc
+        rcases hc with hc | hc
+        · exact h2 c hc
+        · subst hc; exact hd.1
+      · rw [natOfDigits_snoc, h3]; simp only [digitChar]; rw [hd.2.1]; omega
+
+theorem natDec_spec (n : Nat) : natDec n ≠ [] ∧ (∀ c ∈ natDec n, isDigit c = true) ∧ natOfDigits (natDec n) = n :=
+  natDecAux_spec (n + 1) n (by omega)
+
+def noDigitHead (s : Str) : Prop := ∀ c r, s = c :: r → isDigit c = false
+
+theorem takeWhile_digits (ds rest : Str) (hd : ∀ c ∈ ds, isDigit c = true) (hr : noDigitHead rest) :
+    (ds ++ rest).takeWhile isDigit = ds ∧ (ds ++ rest).dropWhile isDigit = rest := by
+  induction ds with
+  | nil =>
+    cases rest with
+    | nil => simp
+    | cons c r => have := hr c r rfl; simp [List.takeWhile, this]
+  | cons d ds ih =>
+    have h1 := hd d (by simp)
+    have := ih (fun c hc => hd c (by simp [hc]))
+    simp [List.takeWhile, h1, this.1, this.2]
+
+theorem parseNum_intDec (n : Int) (rest : Str) (hr : noDigitHead rest) : parseNum (intDec n ++ rest) = some (n, rest) := by
+  cases n with
+  | ofNat m =>
+    obtain ⟨hne, hdig, hval⟩ := natDec_spec m
+    obtain ⟨ht, hdr⟩ := takeWhile_digits (natDec m) rest hdig hr
+    simp only [intDec]
+    cases hnd : natDec m with
+    | nil => exact absurd hnd hne
+    | cons d ds =>
+      have hd1 : isDigit d = true := hdig d (by rw [hnd]; simp)
+      have hdm : d ≠ '-' := by intro h; subst h; revert hd1; decide
+      rw [hnd] at ht hdr hval
+      unfold parseNum
+      split
+      · rename_i r heq; simp at heq; exact absurd heq.1 hdm
+      · rw [ht, hdr, hval]; simp
+  | negSucc m =>
+    obtain ⟨hne, hdig, hval⟩ := natDec_spec (m + 1)
+    obtain ⟨ht, hdr⟩ := takeWhile_digits (natDec (m + 1)) rest hdig hr
+    simp only [intDec, List.cons_append]
+    unfold parseNum
+    simp only [ht, hdr, hval, hne, if_false]
+    rfl
+
+def allWs (w : Str) : Prop := ∀ c ∈ w, isJWs c = true
+
+theorem skipWs_append (w : Str) (c : Char) (t : Str) (hw : allWs w) (hc : isJWs c = false) :
+    skipWs (w ++ c :: t) = c :: t := by
+  induction w with
+  | nil => simp [skipWs, hc]
+  | cons a w ih =>
+    have ha := hw a (by simp)
+    simp only [List.cons_append, skipWs, ha, if_true]
+    exact ih (fun x hx => hw x (by simp [hx]))
+
+theorem skipWs_cons (c : Char) (t : Str) (hc : isJWs c = false) : skipWs (c :: t) = c :: t := by
+  simp [skipWs, hc]
+
+theorem allWs_indentNl (n : Nat) : allWs (indentNl n) := by
+  intro c hc
+  simp only [indentNl, spaces, List.mem_cons, List.mem_replicate] at hc
+  rcases hc with rfl | ⟨_, rfl⟩ <;> decide
+
+/-- a value starts with a byte that is neither white space nor a closing bracket nor a separator -/
+def startOK (c : Char) : Prop :=
+  isJWs c = false ∧ c ≠ ']' ∧ c ≠ '}' ∧ c ≠ ',' ∧ (c = '"' ∨ c = '[' ∨ c = '{' ∨ ((c = '-' ∨ isDigit c = true) ∧ c ≠ '"' ∧ c ≠ '[' ∧ c ≠ '{'))
+
+theorem digit_facts (c : Char) (hc : c = '-' ∨ isDigit c = true) :
+    isJWs c = false ∧ c ≠ ']' ∧ c ≠ '}' ∧ c ≠ ',' ∧ c ≠ '"' ∧ c ≠ '[' ∧ c ≠ '{' := by
+  rcases hc with rfl | hd
+  · decide
+  · simp only [isDigit, Bool.and_eq_true, decide_eq_true_eq] at hd
+    have h1 : 48 ≤ c.toNat := hd.1
+    have h2 : c.toNat ≤ 57 := hd.2
+    refine ⟨?_, ?_, ?_, ?_, ?_, ?_, ?_⟩
+    · cases hw : isJWs c with
+      | false => rfl
+      | true =>
+        simp only [isJWs, Bool.or_eq_true, decide_eq_true_eq] at hw
+        rcases hw with ((h | h) | h) | h <;> (subst h; revert h1; decide)
+    all_goals (intro h; subst h; revert h1 h2; decide)
+
+theorem digit_startOK (c : Char) (h : c = '-' ∨ isDigit c = true) : startOK c := by
+  obtain ⟨a, b, c', d, e, f, g⟩ := digit_facts c h
+  exact ⟨a, b, c', d, Or.inr (Or.inr (Or.inr ⟨h, e, f, g⟩))⟩
+
+theorem intDec_head (n : Int) : ∃ c t, intDec n = c :: t ∧ (c = '-' ∨ isDigit c = true) := by
+  cases n with
+  | ofNat m =>
+    obtain ⟨hne, hdig, _⟩ := natDec_spec m
+    cases hnd : natDec m with
+    | nil => exact absurd hnd hne
+    | cons d ds => exact ⟨d, ds, by simp [intDec, hnd], Or.inr (hdig d (by rw [hnd]; simp))⟩
+  | negSucc m => exact ⟨'-', natDec (m + 1), by simp [intDec], Or.inl rfl⟩
+
+theorem ser_head (v : Json) (ind : Nat) : ∃ c t, ser v ind = c :: t ∧ startOK c := by
+  cases v with
+  | str s => exact ⟨'"', s.flatMap jsonChar ++ ['"'], by simp [ser, jsonStr], by unfold startOK; decide⟩
+  | int n =>
+    cases n with
+    | ofNat m =>
+      obtain ⟨hne, hdig, _⟩ := natDec_spec m
+      cases hnd : natDec m with
+      | nil => exact absurd hnd hne
+      | cons d ds =>
+        refine ⟨d, ds, by simp [ser, intDec, hnd], digit_startOK d (Or.inr (hdig d (by rw [hnd]; simp)))⟩
+    | negSucc m => exact ⟨'-', natDec (m + 1), by simp [ser, intDec], digit_startOK '-' (Or.inl rfl)⟩
+  | arr xs => exact ⟨'[', serArr xs (ind + 1) true ++ (if xs.isEmpty then [] else indentNl ind) ++ [']'], by simp [ser], by unfold startOK; decide⟩
+  | obj kvs => exact ⟨'{', serObj kvs (ind + 1) true ++ (if kvs.isEmpty then [] else indentNl ind) ++ ['}'], by simp [ser], by unfold startOK; decide⟩
+
+theorem indentNl_ne (n : Nat) : indentNl n = '\n' :: spaces (2 * n) := rfl
+
+theorem noDigitHead_of_start (c : Char) (t : Str) (h : isDigit c = false) : noDigitHead (c :: t) := by
+  intro c' r he; simp at he; rw [← he.1]; exact h
+
+theorem noDigitHead_ws_append (w : Str) (c : Char) (t : Str) (hw : allWs w) (hc : isDigit c = false) : noDigitHead (w ++ c :: t) := by
+  cases w with
+  | nil => exact noDigitHead_of_start c t hc
+  | cons a w' =>
+    have ha := hw a (by simp)
+    apply noDigitHead_of_start
+    cases hd : isDigit a with
+    | false => rfl
+    | true =>
+      simp only [isJWs, Bool.or_eq_true, decide_eq_true_eq] at ha
+      rcases ha with ((h | h) | h) | h <;> (subst h; revert hd; decide)
+
+theorem startOK_noDigit_sep : isDigit ',' = false ∧ isDigit ']' = false ∧ isDigit '}' = false := by decide
+
+mutual
+theorem parse_ser : (v : Json) → ∀ (ind fuel : Nat) (w rest : Str), (ser v ind).length ≤ fuel → allWs w → noDigitHead rest →
+    parseVal fuel (w ++ (ser v ind ++ rest)) = some (v, rest)
+  | .str s, ind, fuel, w, rest, hf, hw, hr => by
+    cases fuel with
+    | zero => simp [ser, jsonStr] at hf
+    | succ f =>
+      have e : ser (.str s) ind ++ rest = '"' :: (s.flatMap jsonChar ++ '"' :: rest) := by simp [ser, jsonStr]
+      rw [e, parseVal, skipWs_append w '"' _ hw (by decide)]
+      simp only [if_true]
+      rw [jsonChars_decode]
+  | .int n, ind, fuel, w, rest, hf, hw, hr => by
+    have hi : ser (.int n) ind = intDec n := by simp [ser]
+    obtain ⟨c, t, hct, hd⟩ := intDec_head n
+    obtain ⟨hws, _, _, _, h1, h2, h3⟩ := digit_facts c hd
+    cases fuel with
+    | zero => rw [hi, hct] at hf; simp at hf
+    | succ f =>
+      rw [hi, hct, List.cons_append, parseVal, skipWs_append w c _ hw hws]
+      simp only [h1, h2, h3, if_false]
+      have hcd : (c = '-' || isDigit c) = true := by
+        rcases hd with h | h
+        · simp [h]
+        · simp [h]
+      rw [if_pos hcd, ← List.cons_append, ← hct, parseNum_intDec n rest hr]
+  | .arr [], ind, fuel, w, rest, hf, hw, hr => by
+    cases fuel with
+    | zero => simp [ser] at hf
+    | succ f =>
+      have e : ser (.arr []) ind ++ rest = '[' :: ']' :: rest := by simp [ser, serArr]
+      rw [e, parseVal, skipWs_append w '[' _ hw (by decide)]
+      have h1 : ('[' = '"') = False := by decide
+      simp only [h1, if_false, if_true]
+      rw [skipWs_cons ']' rest (by decide)]
+      rfl
+  | .arr (x :: xr), ind, fuel, w, rest, hf, hw, hr => by
+    cases fuel with
+    | zero => simp [ser] at hf
+    | succ f =>
+      have e : ser (.arr (x :: xr)) ind ++ rest =
+          '[' :: (indentNl (ind + 1) ++ (ser x (ind + 1) ++ (serArr xr (ind + 1) false ++ (indentNl ind ++ ']' :: rest)))) := by
+        simp [ser, serArr]
+      have hlen : (ser x (ind + 1)).length + (serArr xr (ind + 1) false).length + 1 ≤ f := by
+        have : (ser (.arr (x :: xr)) ind).length =
+            1 + ((indentNl (ind + 1)).length + (ser x (ind + 1)).length + (serArr xr (ind + 1) false).length) + (indentNl ind).length + 1 := by
+          simp [ser, serArr]; omega
+        have h2 : 1 ≤ (indentNl (ind + 1)).length := by simp [indentNl]
+        omega
+      obtain ⟨c, t, hct, hs⟩ := ser_head x (ind + 1)
+      rw [e, parseVal, skipWs_append w '[' _ hw (by decide)]
+      have h1 : ('[' = '"') = False := by decide
+      simp only [h1, if_false, if_true]
+      have hsk : skipWs (indentNl (ind + 1) ++ (ser x (ind + 1) ++ (serArr xr (ind + 1) false ++ (indentNl ind ++ ']' :: rest)))) =
+          c :: (t ++ (serArr xr (ind + 1) false ++ (indentNl ind ++ ']' :: rest))) := by
+        rw [hct, List.cons_append]; exact skipWs_append _ c _ (allWs_indentNl _) hs.1
+      rw [hsk]
+      have hel := parse_elems xr x (ind + 1) f [] (indentNl ind) rest
+        (fun fuel w rest a b c => parse_ser x (ind + 1) fuel w rest a b c) hlen (fun _ h => by simp at h) (allWs_indentNl ind)
+      rw [hct] at hel
+      simp only [List.nil_append, List.cons_append] at hel
+      split
+      · rename_i rest' heq; simp at heq; exact absurd heq.1 hs.2.1
+      · rw [hel]
+  | .obj [], ind, fuel, w, rest, hf, hw, hr => by
+    cases fuel with
+    | zero => simp [ser] at hf
+    | succ f =>
+      have e : ser (.obj []) ind ++ rest = '{' :: '}' :: rest := by simp [ser, serObj]
+      rw [e, parseVal, skipWs_append w '{' _ hw (by decide)]
+      have h1 : ('{' = '"') = False := by decide
+      have h2 : ('{' = '[') = False := by decide
+      simp only [h1, h2, if_false, if_true]
+      rw [skipWs_cons '}' rest (by decide)]
+      rfl
+  | .obj ((k, v) :: r), ind, fuel, w, rest, hf, hw, hr => by
+    cases fuel with
+    | zero => simp [ser] at hf
+    | succ f =>
+      have e : ser (.obj ((k, v) :: r)) ind ++ rest =
+          '{' :: (indentNl (ind + 1) ++ ('"' :: (k.flatMap jsonChar ++ '"' :: (':' :: ' ' :: (ser v (ind + 1) ++
+            (serObj r (ind + 1) false ++ (indentNl ind ++ '}' :: rest))))))) := by
+        simp [ser, serObj, jsonStr]
+      have hlen : (jsonStr k).length + (ser v (ind + 1)).length + (serObj r (ind + 1) false).length + 1 ≤ f := by
+        have : (ser (.obj ((k, v) :: r)) ind).length =
+            1 + ((indentNl (ind + 1)).length + (jsonStr k).length + 2 + (ser v (ind + 1)).length + (serObj r (ind + 1) false).length) +
+              (indentNl ind).length + 1 := by
+          simp [ser, serObj]; omega
+        omega
+      rw [e, parseVal, skipWs_append w '{' _ hw (by decide)]
+      have h1 : ('{' = '"') = False := by decide
+      have h2 : ('{' = '[') = False := by decide
+      simp only [h1, h2, if_false, if_true]
+      rw [skipWs_append _ '"' _ (allWs_indentNl _) (by decide)]
+      have hm := parse_members r k v (ind + 1) f [] (indentNl ind) rest
+        (fun fuel w rest a b c => parse_ser v (ind + 1) fuel w rest a b c) hlen (fun _ h => by simp at h) (allWs_indentNl ind)
+      simp only [List.nil_append, jsonStr, List.cons_append, List.append_assoc] at hm
+      split
+      · rename_i rest' heq; simp at heq
+      · rw [hm]theorem parse_elems : (xr : List Json) → ∀ (x : Json) (ind fuel : Nat) (w w2 rest : Str),
+    (∀ (fuel : Nat) (w rest : Str), (ser x ind).length ≤ fuel → allWs w → noDigitHead rest →
+        parseVal fuel (w ++ (ser x ind ++ rest)) = some (x, rest)) →
+    (ser x ind).length + (serArr xr ind false).length + 1 ≤ fuel → allWs w → allWs w2 →
+    parseElems fuel (w ++ (ser x ind ++ (serArr xr ind false ++ (w2 ++ ']' :: rest)))) = some (x :: xr, rest)
+  | [], x, ind, fuel, w, w2, rest, hx, hf, hw, hw2 => by
+    cases fuel with
+    | zero => omega
+    | succ f =>
+      have hrest : noDigitHead (serArr [] ind false ++ (w2 ++ ']' :: rest)) := by
+        simp only [serArr, List.nil_append]; exact noDigitHead_ws_append w2 ']' rest hw2 (by decide)
+      rw [parseElems, hx f w _ (by omega) hw hrest]
+      simp only [serArr, List.nil_append]
+      rw [skipWs_append w2 ']' rest hw2 (by decide)]
+      rfl
+  | y :: yr, x, ind, fuel, w, w2, rest, hx, hf, hw, hw2 => by
+    cases fuel with
+    | zero => omega
+    | succ f =>
+      have e : serArr (y :: yr) ind false ++ (w2 ++ ']' :: rest) =
+          ',' :: (indentNl ind ++ (ser y ind ++ (serArr yr ind false ++ (w2 ++ ']' :: rest)))) := by simp [serArr]
+      have hlen : (serArr (y :: yr) ind false).length = 1 + (indentNl ind).length + (ser y ind).length + (serArr yr ind false).length := by
+        simp [serArr]; omega
+      have h2 : 1 ≤ (indentNl ind).length := by simp [indentNl]
+      have hrest : noDigitHead (serArr (y :: yr) ind false ++ (w2 ++ ']' :: rest)) := by
+        rw [e]; exact noDigitHead_of_start ',' _ (by decide)
+      rw [parseElems, hx f w _ (by omega) hw hrest, e]
+      simp only []
+      rw [skipWs_cons ',' _ (by decide)]
+      simp only []
+      rw [parse_elems yr y ind f (indentNl ind) w2 rest (fun fuel w rest a b c => parse_ser y ind fuel w rest a b c)
+        (by omega) (allWs_indentNl ind) hw2]
+theorem parse_members : (r : List (Str × Json)) → ∀ (k : Str) (v : Json) (ind fuel : Nat) (w w2 rest : Str),
+    (∀ (fuel : Nat) (w rest : Str), (ser v ind).length ≤ fuel → allWs w → noDigitHead rest →
+        parseVal fuel (w ++ (ser v ind ++ rest)) = some (v, rest)) →
+    (jsonStr k).length + (ser v ind).length + (serObj r ind false).length + 1 ≤ fuel → allWs w → allWs w2 →
+    parseMembers fuel (w ++ (jsonStr k ++ (':' :: ' ' :: (ser v ind ++ (serObj r ind false ++ (w2 ++ '}' :: rest)))))) =
+      some ((k, v) :: r, rest)
+  | [], k, v, ind, fuel, w, w2, rest, hv, hf, hw, hw2 => by
+    cases fuel with
+    | zero => omega
+    | succ f =>
+      have hrest : noDigitHead (serObj [] ind false ++ (w2 ++ '}' :: rest)) := by
+        simp only [serObj, List.nil_append]; exact noDigitHead_ws_append w2 '}' rest hw2 (by decide)
+      have e : jsonStr k ++ (':' :: ' ' :: (ser v ind ++ (serObj [] ind false ++ (w2 ++ '}' :: rest)))) =
+          '"' :: (k.flatMap jsonChar ++ '"' :: (':' :: ([' '] ++ (ser v ind ++ (serObj [] ind false ++ (w2 ++ '}' :: rest)))))) := by
+        simp [jsonStr]
+      rw [e, parseMembers, skipWs_append w '"' _ hw (by decide)]
+      simp only []
+      rw [jsonChars_decode]
+      simp only []
+      rw [skipWs_cons ':' _ (by decide)]
+      simp only []
+      rw [hv f [' '] _ (by omega) (fun c hc => by simp at hc; subst hc; decide) hrest]
+      simp only [serObj, List.nil_append]
+      rw [skipWs_append w2 '}' rest hw2 (by decide)]
+      rfl
+  | (k2, v2) :: r2, k, v, ind, fuel, w, w2, rest, hv, hf, hw, hw2 => by
+    cases fuel with
+    | zero => omega
+    | succ f =>
+      have e2 : serObj ((k2, v2) :: r2) ind false ++ (w2 ++ '}' :: rest) =
+          ',' :: (indentNl ind ++ (jsonStr k2 ++ (':' :: ' ' :: (ser v2 ind ++ (serObj r2 ind false ++ (w2 ++ '}' :: rest)))))) := by
+        simp [serObj]
+      have hlen : (serObj ((k2, v2) :: r2) ind false).length =
+          1 + (indentNl ind).length + (jsonStr k2).length + 2 + (ser v2 ind).length + (serObj r2 ind false).length := by
+        simp [serObj]; omega
+      have hrest : noDigitHead (serObj ((k2, v2) :: r2) ind false ++ (w2 ++ '}' :: rest)) := by
+        rw [e2]; exact noDigitHead_of_start ',' _ (by decide)
+      have e : jsonStr k ++ (':' :: ' ' :: (ser v ind ++ (serObj ((k2, v2) :: r2) ind false ++ (w2 ++ '}' :: rest)))) =
+          '"' :: (k.flatMap jsonChar ++ '"' :: (':' :: ([' '] ++ (ser v ind ++ (serObj ((k2, v2) :: r2) ind false ++ (w2 ++ '}' :: rest)))))) := by
+        simp [jsonStr]
+      rw [e, parseMembers, skipWs_append w '"' _ hw (by decide)]
+      simp only []
+      rw [jsonChars_decode]
+      simp only []
+      rw [skipWs_cons ':' _ (by decide)]
+      simp only []
+      rw [hv f [' '] _ (by omega) (fun c hc => by simp at hc; subst hc; decide) hrest, e2]
+      simp only []
+      rw [skipWs_cons ',' _ (by decide)]
+      simp only []
+      rw [parse_members r2 k2 v2 ind f (indentNl ind) w2 rest (fun fuel w rest a b c => parse_ser v2 ind fuel w rest a b c)
+        (by omega) (allWs_indentNl ind) hw2]
+end
+
+/-- **the strict reader reads back every tree picojson serialises** (prettified form) -/
+theorem jsonParse_serialize (v : Json) : jsonParse (serialize v) = some v := by
+  unfold jsonParse serialize
+  have h := parse_ser v 0 ((ser v 0 ++ ['\n']).length + 1) [] ['\n'] (by simp; omega) (fun _ h => by simp at h)
+    (noDigitHead_of_start '\n' [] (by decide))
+  simp only [List.nil_append] at h
+  rw [h]
+  rfl
+
+theorem serObj_false (kvs : List (Str × Json)) (ind : Nat) (h : kvs ≠ []) :
+    serObj kvs ind false = ',' :: serObj kvs ind true := by
+  cases kvs with
+  | nil => exact absurd rfl h
+  | cons kv r => obtain ⟨k, v⟩ := kv; simp [serObj]
+
+/-- the hand-spliced `"version"` member: the text `SarifReport::serialize` returns is the serialisation of the
+    document object with `"version": "2.1.0"` as its first member -/
+theorem serializeSarif_eq (name version : Str) (fs : List Finding) :
+    serializeSarif name version fs = serialize (withVersion (doc name version fs)) := by
+  unfold serializeSarif doc withVersion serialize
+  simp only [ser, serObj, List.isEmpty_cons, Bool.false_eq_true, if_false, if_true, S]
+  have hv : "{\n  \"version\": \"2.1.0\",".toList =
+      '{' :: (indentNl 1 ++ (jsonStr "version".toList ++ ([':', ' '] ++ (jsonStr "2.1.0".toList ++ [','])))) := by decide
+  rw [hv]
+  simp [List.append_assoc]
 
 end Cppcheck.Sarif
